@@ -59,6 +59,11 @@ TIGHT_HAZARDS = ["{ tmp = a ? R1:0; }", "{ tmp = PuV ? R1:0; }", "{ tmp = RsV ? 
                  "{ tmp = *(size4u_t*) EA; }", "{ x = (cnt_t) - RsV; }", "{ x = (len_t) * p; }", "{ x = (foo_t *) a; }", "{ x = (long *) a + 1; }"]
 
 
+# operator runs that can be split in several ways (whatever split the grammar settles on, every node agrees)
+OPERATOR_RUNS = ["{ tmp = b---c; }", "{ tmp = b+++c; }", "{ tmp = b--- -c; }", "{ tmp = b+++ +c; }", "{ tmp = a---b---c; }", "{ tmp = a&&&b; }",
+                 "{ tmp = a<<<b; }", "{ tmp = b- --c; }", "{ tmp = b-- -c; }", "{ tmp = a+++b---c; }"]
+
+
 class EngineG(EngineBase):
     prop = "C17"
     tiers = {"quick": dict(budget_s=75, max_runs=10**9, workers=16),
@@ -108,7 +113,7 @@ class EngineG(EngineBase):
             ast = ("expr", ("assign", "=", ("atom", ("id", "tmp")), e))
             texts.append(self._gen_text(ch, ast, paren_postfix, "pair"))
         # blank-sensitive texts go first: the short histories of parse_single nodes always contain them
-        hz = gen_c.blank_sensitive_cases()
+        hz = gen_c.blank_sensitive_cases() + gen_c.paren_ident_cases()
         for _ in range(2):
             e = ch.choice(hz, "hazard")
             ast = ("expr", ("assign", "=", ("atom", ("id", "tmp")), e))
@@ -118,6 +123,7 @@ class EngineG(EngineBase):
             # the same shapes without blanks ('R1:0' is also the spelling of a register pair): whichever tree the grammar
             # assigns, it has to be the same on every node and after every history - in particular after a rejected text
             texts.append({"kind": "detonly", "text": ch.choice(TIGHT_HAZARDS, "tight"), "hazard": True})
+            texts.append({"kind": "detonly", "text": ch.choice(OPERATOR_RUNS, "oprun"), "hazard": True})
             texts.append({"kind": "broken", "text": ch.choice(BROKEN, "broken-before-tight")})
         if ch.chance(1, 2, "twins"):
             # two different ASTs whose texts differ only in whitespace: a parser (or cache) that ignores token
@@ -150,7 +156,7 @@ class EngineG(EngineBase):
             hs = ch.choice([0, 1, 2, 12345, None], "hs")
             if hs is None:
                 hs = ch.draw(2**32, "hs32")
-            route = ch.weighted([("compiler", 5), ("direct", 3), ("parse_single", 2)], "route")
+            route = ch.weighted([("compiler", 5), ("direct", 3), ("parse_single", 3)], "route")
             order = ch.shuffle(list(range(len(texts))), "order")
             if route == "parse_single":
                 hazards = [i for i, t in enumerate(texts) if t.get("hazard")]
